@@ -1,3 +1,5 @@
+//go:build c20
+
 package main
 
 import (
